@@ -159,6 +159,9 @@ def run(ctx):
     chk.rule('Q3', 'the emitted value is data-dependent on that query (for struct results: on the documented member) and on '
                    'no forbidden member; name lookups are fed by the documented id', floor=25)
     chk.rule('Q4', 'numeric ids are printed with an integer conversion of matching signedness', floor=8)
+    chk.rule('W1', 'root process name: for each class of parent pid (1 = init, 0 = top of a pid namespace / init itself, '
+                   'failure, any other) the walk takes the documented step: name of the current process, "(unknown)", or '
+                   'one level up', floor=4)
     chk.explanation = (
         'For every registered data source the backward def-use slice of each value it prints into its result buffer is '
         'computed (through local variables, out-parameters and helper functions) and compared with a table transcribed '
@@ -166,7 +169,7 @@ def run(ctx):
         '(uid vs euid vs gid, tv_sec vs tv_usec, pid vs ppid).')
     chk.assumptions = ['libc returns what the kernel reports for these queries']
     chk.not_decided = ['correctness of the procfs/utmp/hosts parsers, name-service lookups, values in exotic process '
-                       'states (e.g. parent pid 0 in a pid namespace)']
+                       'states other than the parent-pid classes of W1']
     prog = ctx.program(facts.AS_CONFIGURED, 'lib')
     cg = ctx.callgraph(facts.AS_CONFIGURED, 'lib')
     names = common.table_names(prog, 'snoopy_datasourceregistry_names')
@@ -294,6 +297,8 @@ def run(ctx):
             chk.ob('Q4', '%s:integer-conversion' % name, ok, convs[0][2].where() if convs else ds.where(), ds.name,
                    'numeric id printed with %s' % ', '.join('%%%s' % cv for cv, a, c in convs),
                    how=', '.join('%%%s' % cv for cv, a, c in convs))
+    if 'rpname' in names:
+        w1_rpname_walk(ctx, prog, cg)
     chk.count('datasources_checked', n_checked)
     if n_checked < 25:
         raise AnalysisBroken('only %d data sources matched the specification table' % n_checked)
@@ -322,3 +327,171 @@ def args_match(f, c, argspec, ds):
             if not (f is ds and d is not None and d['kind'] == 'parm' and d['index'] == want[1]):
                 return False
     return True
+
+
+# ---- W1 ---------------------------------------------------------------------------------------------
+def _eval(n, env):
+    """value of an integer expression under env {decl id: int}; None when unknown"""
+    n = strip(n)
+    if n is None:
+        return None
+    if 'v' in n.d:
+        return n['v']
+    if n.k == 'DeclRefExpr':
+        return env.get(n['ref'].get('id'))
+    if n.k == 'UnaryOperator':
+        v = _eval(n.ch[0], env)
+        if v is None:
+            return None
+        return {'!': int(not v), '-': -v, '+': v, '~': ~v}.get(n['op'])
+    if n.k == 'BinaryOperator':
+        op = n['op']
+        a, b = _eval(n.ch[0], env), _eval(n.ch[1], env)
+        if op == '&&':
+            if a == 0 or b == 0:
+                return 0
+            return None if a is None or b is None else 1
+        if op == '||':
+            if (a is not None and a != 0) or (b is not None and b != 0):
+                return 1
+            return None if a is None or b is None else 0
+        if a is None or b is None:
+            return None
+        import operator as o
+        f = {'==': o.eq, '!=': o.ne, '<': o.lt, '>': o.gt, '<=': o.le, '>=': o.ge, '+': o.add, '-': o.sub}.get(op)
+        return int(f(a, b)) if f else None
+    return None
+
+
+def explore_with_value(func, start, var_id, value):
+    """elements reachable from CFG position `start` when variable var_id holds `value`, pruning branches
+    the value decides.  Exploration of a path stops where the variable is assigned again (that element
+    is still reported)."""
+    env = {var_id: value}
+    seen_blocks = set()
+    out = []
+    work = [start]
+    while work:
+        b, i = work.pop()
+        if (b, i) in seen_blocks:
+            continue
+        seen_blocks.add((b, i))
+        blk = func.blocks[b]
+        stopped = False
+        for e in blk.elems[i:]:
+            out.append(e)
+            if e.k in ('BinaryOperator', 'CompoundAssignOperator') and (e.get('op') == '=' or e.k == 'CompoundAssignOperator') and \
+                    (decl_of(e.ch[0]) or {}).get('id') == var_id and strip(e.ch[0]).k == 'DeclRefExpr':
+                stopped = True
+                break
+            if e.k == 'ReturnStmt':
+                break
+        if stopped:
+            continue
+        succs = [(k, s) for k, (s, u) in enumerate(blk.all_succs) if s is not None and not u]
+        if blk.cond is not None and len(blk.all_succs) == 2:
+            v = _eval(blk.cond, env)
+            if v is not None:
+                succs = [(k, s) for k, s in succs if k == (0 if v else 1)]
+        for k, s in succs:
+            work.append((s, 0))
+    return out
+
+
+def w1_rpname_walk(ctx, prog, cg):
+    chk = ctx.chk
+    ds = prog.require_func('snoopy_datasource_rpname')
+    fs = own_reach(cg, ds)
+    # the parent lookup: the helper reading the "PPid" key; the walker: the function testing its result
+    def lit_args(c):
+        return [strip(a).get('s') for a in c.ch[1:] if a is not None and strip(a).k == 'StringLiteral']
+    P = None
+    for g in fs:
+        if any('PPid' in (l or '') for c in g.calls() for l in lit_args(c)):
+            P = g
+    if P is None:
+        raise AnalysisBroken('no helper reading the "PPid" key of /proc/<pid>/status reachable from rpname')
+    W = None
+    pc = None
+    for g in fs:
+        for c in g.calls(P.name):
+            if g is not P:
+                W, pc = g, c
+                break
+        if W is not None:
+            break
+    if W is None:
+        raise AnalysisBroken('%s is never called' % P.name)
+    hv = common.holder(W, pc)
+    if hv is None:
+        raise AnalysisBroken('the result of %s is not kept in a variable in %s' % (P.name, W.name))
+    pos = C.position_of(W, pc) if hasattr(C, 'position_of') else None
+    if pos is None:
+        for b, blk in W.blocks.items():
+            for i, e in enumerate(blk.elems):
+                if e is pc or any(x is pc for x in e.walk()):
+                    pos = (b, i)
+    # start right after the assignment that stores the result
+    b0, i0 = pos
+    blk = W.blocks[b0]
+    j = i0
+    for k in range(i0, len(blk.elems)):
+        e = blk.elems[k]
+        if any(x is pc for x in e.walk()):
+            j = k
+    start = (b0, j + 1)
+    root = common.macro_value(ctx.repo, 'PID_ROOT', 'src/datasource/rpname.c')
+    unknown = common.macro_value(ctx.repo, 'PID_UNKNOWN', 'src/datasource/rpname.c')
+    # variables that take the parent pid's value (pid = parentPid in a loop form)
+    carriers = {hv}
+    for n in W.body.walk():
+        if n.k == 'BinaryOperator' and n['op'] == '=' and (decl_of(n.ch[1]) or {}).get('id') == hv and strip(n.ch[1]).k == 'DeclRefExpr':
+            d = decl_of(n.ch[0])
+            if d is not None:
+                carriers.add(d['id'])
+
+    def classify(value):
+        els = explore_with_value(W, start, hv, value)
+        name_read, up, unk = [], [], []
+        assigned = set()     # carriers assigned from the parent pid on this exploration
+        for e in els:
+            if e.k == 'BinaryOperator' and e['op'] == '=' and (decl_of(e.ch[1]) or {}).get('id') == hv:
+                d = decl_of(e.ch[0])
+                if d is not None:
+                    assigned.add(d['id'])
+            if e.k != 'CallExpr':
+                continue
+            a0 = decl_of(arg(e, 0)) if len(e.ch) > 1 else None
+            if any((l or '') == 'Name' for l in lit_args(e)):
+                if a0 is not None and a0['id'] not in assigned and a0['id'] != hv:
+                    name_read.append(e)
+                else:
+                    up.append(e)   # reads the name of the parent, not of the current process
+            elif e.get('callee') in (P.name, W.name) and e is not pc or (e.get('callee') == P.name and e is pc and False):
+                if a0 is not None and (a0['id'] == hv or a0['id'] in assigned):
+                    up.append(e)
+            elif e.get('callee') in fmt.PRINTF_FAMILY and any('unknown' in (l or '') for l in lit_args(e)):
+                unk.append(e)
+        return name_read, up, unk, els
+
+    cases = [('init', root, 'name'), ('zero', 0, 'name'), ('lookup-failed', unknown, 'unknown'), ('other', 4242, 'up')]
+    for label, value, want in cases:
+        if value is None:
+            raise AnalysisBroken('PID_ROOT / PID_UNKNOWN are no longer integer macros of rpname.c')
+        nr, up, unk, els = classify(value)
+        if want == 'name':
+            ok = bool(nr) and not up
+            detail = ('with parent pid %d (%s) the walk %s instead of reporting the name of the current process: a process '
+                      'at the top of its tree gets a wrong or "(unknown)" root process name' % (
+                          value, label, 'goes one level further up' if up else 'does not read the process name'))
+        elif want == 'unknown':
+            ok = not nr and not up and bool(unk)
+            detail = 'when the parent lookup fails the walk must stop with "(unknown)", not %s' % (
+                'continue upward' if up else 'report a name' if nr else 'return nothing')
+        else:
+            ok = bool(up) and not any(True for e in nr if els.index(e) < els.index(up[0]))
+            detail = 'with an ordinary parent (pid %d) the walk must continue at that parent' % value
+        at = (up or nr or unk or [pc])[0]
+        chk.ob('W1', 'rpname-walk[parent=%s]' % label, ok, at.where(), W.name, detail,
+               how='parent pid %d: %s' % (value, {'name': 'reads "Name" of the current pid', 'unknown': 'emits (unknown)',
+                                                   'up': 'calls %s / %s with the parent pid' % (P.name, W.name)}[want]))
